@@ -21,7 +21,10 @@ type HistoryConfig struct {
 	// Hook is called after every executed step (op, result, model) - used by
 	// engines that add their own monitors (placement, LastModified, ...).
 	Hook func(step int, op *Op, res *Result, m *Model, applied bool) []Divergence
-	// Stop, when set, decides whether a divergence ends the history.
+	// Next, when set, replaces the PRNG generator: it returns the next scripted
+	// operation for the current model state, or nil to end the history.
+	Next func(step int, m *Model) *Op
+	// InScope decides whether a divergence is reported (and ends the history).
 	InScope func(d Divergence) bool
 }
 
@@ -130,7 +133,14 @@ func RunHistory(ctx context.Context, cfg HistoryConfig) *HistoryResult {
 	}
 
 	for step := 0; step < cfg.Steps; step++ {
-		op := g.Next(m)
+		var op *Op
+		if cfg.Next != nil {
+			if op = cfg.Next(step, m); op == nil {
+				break
+			}
+		} else {
+			op = g.Next(m)
+		}
 		_, applied, stop := run(step, op)
 		if stop {
 			return h
